@@ -3,14 +3,14 @@
 
    Level reached: every executable reference specification used by the correspondence check
    (model/Algos.v) is proved equal to its declarative definition for ALL graphs; the
-   validation predicate for returned paths accepts exactly real paths; the models of bfs and
-   dijkstra as written are proved to return a real path of optimal cost / None exactly when
-   unreachable (C26_bfs_optimal, C26_dijkstra_optimal), the model of count_triangles equals
-   the specification, and Prim's original incoming-edge lookup is refuted on a witness.
-   NOT proved: that the repaired prim_mst model returns the minimum spanning-tree weight
-   (C26_prim_minimal_full, stated below); see checks/C26.json "partial". *)
+   validation predicate for returned paths accepts exactly real paths; the models of bfs,
+   dijkstra, the repaired prim_mst and count_triangles as written are proved to return the
+   specification's answer on every graph (C26_bfs_optimal, C26_dijkstra_optimal,
+   C26_prim_minimal, C26_count_triangles_model); Prim's original incoming-edge lookup is
+   refuted on a witness.  Not modelled as written: Edmonds-Karp, union-find, Tarjan, the LCC
+   loops (hash-map iteration order / recursion) — see checks/C26.json "partial". *)
 From Coq Require Import List NArith Bool Arith.
-From Verif Require Import Algos AlgosProofs AlgosOptimal AlgosDijkstra AlgosTriangles.
+From Verif Require Import Algos AlgosProofs AlgosOptimal AlgosDijkstra AlgosTriangles AlgosPrim.
 Import ListNotations.
 
 (* ---- shortest paths / reachability ------------------------------------------------ *)
@@ -159,11 +159,13 @@ Proof. exact dijkstra_optimal. Qed.
 Theorem C26_count_triangles_model : forall g, count_triangles_model g = triangles_spec g.
 Proof. exact count_triangles_model_spec. Qed.
 
-(* ---- stated, not proved (see "partial") -------------------------------------------- *)
-
-Definition C26_prim_minimal_full : Prop := forall g, wf g -> 0 < gn g ->
+(* the model of the repaired mst.rs prim_mst (priority queue of (weight, source, target),
+   add_edges pushing every outgoing edge and the LIGHTEST parallel edge of every incoming
+   neighbour) terminates within its fuel and returns the minimum total weight over all
+   spanning trees of node 0's component in the undirected multigraph *)
+Theorem C26_prim_minimal : forall g, wf g -> 0 < gn g ->
   exists c T, prim_model g = MRes c T /\ mst_spec g = Some c.
-Definition C26_full : Prop := C26_prim_minimal_full.
+Proof. exact prim_minimal. Qed.
 
 (* ---- non-vacuity ------------------------------------------------------------------- *)
 
@@ -203,3 +205,4 @@ Print Assumptions C26_lcc_def.
 Print Assumptions C26_bfs_optimal.
 Print Assumptions C26_dijkstra_optimal.
 Print Assumptions C26_count_triangles_model.
+Print Assumptions C26_prim_minimal.
